@@ -10,6 +10,14 @@ package main
 // return; the oracle is the property text: no verification INVOKED AFTER the
 // mutation RETURNED may succeed with the old value, an expired or never-issued
 // value never authenticates.
+//
+// The AuthManager's own background tasks run too (simulated ticker): the cache
+// janitor and the last_used_at writer. A share of the plans is "sweep-focused":
+// the harness watches the janitor's sweeps (observation seam, arc's ticker and
+// arc's sweep code), learns their period and phase from what it saw, lets cache
+// entries of other tokens age past the configured TTL, re-authenticates the
+// token under test shortly before the next sweep and places the concurrent
+// phase (mutation + verifications) on that sweep. The oracle is the same.
 
 import (
 	"context"
@@ -44,6 +52,16 @@ type C21Plan struct {
 	Verifiers  []Verifier `json:"verifiers"`
 	Post       []VOp      `json:"post"`   // sequential verifications after all tasks joined
 	LagUs      int        `json:"lag_us"` // follower apply lag
+	Sweep      *SweepPlan `json:"sweep,omitempty"`
+}
+
+// SweepPlan places the concurrent phase on a sweep of the leader's token-cache
+// janitor. Nothing about the janitor's period is assumed: it is measured.
+type SweepPlan struct {
+	Learn      int  `json:"learn"`        // sweeps observed before the targeted one (1: period = first sweep - boot, 2: period = distance of two sweeps)
+	WarmPct    int  `json:"warm_pct"`     // the token under test is re-authenticated this share of the configured cache TTL before the predicted sweep
+	LeadUs     int  `json:"lead_us"`      // the concurrent phase starts this long before the predicted sweep
+	MutOnSweep bool `json:"mut_on_sweep"` // the mutator starts when the targeted sweep is seen to begin (else after mut_delay_us)
 }
 
 var vias = []string{"direct", "direct", "bearer", "token", "plain", "apikey"}
@@ -67,6 +85,9 @@ func genVOp(r *simrt.Rand, mut string, maxDelay int) VOp {
 }
 
 func genC21(r *simrt.Rand, tier string) any {
+	if r.Chance(30) {
+		return genC21Sweep(r, tier)
+	}
 	p := &C21Plan{}
 	p.Knobs = NodeKnobs{
 		Cluster:      r.Chance(45),
@@ -113,6 +134,44 @@ func genC21(r *simrt.Rand, tier string) any {
 	return p
 }
 
+// genC21Sweep draws a sweep-focused plan (see SweepPlan).
+func genC21Sweep(r *simrt.Rand, tier string) *C21Plan {
+	p := &C21Plan{}
+	p.Knobs = NodeKnobs{
+		Cluster:      r.Chance(40),
+		Licensed:     true,
+		AuthTTLMs:    []int{1, 20, 500, 500, 60000, 300000}[r.Intn(6)],
+		AuthCacheMax: []int{1, 2, 3, 1000, 1000}[r.Intn(5)],
+		RBACTTLMs:    30000, RBACCacheMax: 100,
+		YieldOnDB: r.Chance(70),
+	}
+	p.Knobs.Follower = p.Knobs.Cluster && r.Chance(30)
+	p.Perms = []string{"read", "read,write", "admin", ""}[r.Intn(4)]
+	p.Mut = []string{"revoke", "revoke", "delete", "delete", "rotate", "rotate", "expire"}[r.Intn(7)]
+	p.Bystanders = 1 + r.Intn(3)
+	p.Sweep = &SweepPlan{Learn: 1 + r.Intn(2), WarmPct: []int{5, 25, 50, 90}[r.Intn(4)],
+		LeadUs: []int{0, 0, 3, 30, 300, 3000}[r.Intn(6)], MutOnSweep: r.Chance(50)}
+	maxDelay := []int{5, 50, 500}[r.Intn(3)]
+	if !p.Sweep.MutOnSweep {
+		p.MutDelayUs = r.Intn(maxDelay + 1)
+	}
+	for i, n := 0, r.Intn(3); i < n; i++ {
+		v := Verifier{Node: "leader"}
+		if p.Knobs.Follower && r.Chance(40) {
+			v.Node = "follower"
+		}
+		for j, m := 0, 1+r.Intn(3); j < m; j++ {
+			v.Ops = append(v.Ops, genVOp(r, p.Mut, maxDelay))
+		}
+		p.Verifiers = append(p.Verifiers, v)
+	}
+	for i, n := 0, 1+r.Intn(3); i < n; i++ {
+		p.Post = append(p.Post, genVOp(r, p.Mut, maxDelay))
+	}
+	p.LagUs = []int{0, 100, 5000}[r.Intn(3)]
+	return p
+}
+
 type vrec struct {
 	node   string
 	value  string
@@ -146,6 +205,145 @@ type c21run struct {
 	stopFol  bool
 	bystand  []string
 	warmFail int
+	sweeps   []sweepObs // janitor sweeps seen (both nodes)
+	bootNs   int64      // sim time just before the leader was booted
+	focused  bool       // sweep focus: the targeted sweep was predicted and the phase placed on it
+	nextNs   int64      // sweep focus: predicted begin of the targeted sweep (sim ns)
+	seenAt   int        // sweep focus: leader sweeps seen when the phase was placed
+}
+
+// sweepObs is one observed janitor sweep: event numbers at begin and end.
+type sweepObs struct {
+	node       string
+	begin, end int64
+	beginNs    int64
+}
+
+func (c *c21run) observeSweep(am *auth.AuthManager, begin bool) {
+	node := ""
+	switch {
+	case c.leader != nil && am == c.leader.am:
+		node = "leader"
+	case c.follower != nil && am == c.follower.am:
+		node = "follower"
+	default:
+		return // a manager that is still being constructed
+	}
+	if begin {
+		c.sweeps = append(c.sweeps, sweepObs{node: node, begin: c.next(), beginNs: simrt.SimNow()})
+		simrt.Event("sweep-begin node=%s", node)
+		return
+	}
+	for i := len(c.sweeps) - 1; i >= 0; i-- {
+		if c.sweeps[i].node == node && c.sweeps[i].end == 0 {
+			c.sweeps[i].end = c.next()
+			simrt.Event("sweep-end node=%s", node)
+			return
+		}
+	}
+}
+
+func (c *c21run) leaderSweeps() (n int, lastNs, prevNs int64) {
+	for _, s := range c.sweeps {
+		if s.node == "leader" {
+			n++
+			prevNs, lastNs = lastNs, s.beginNs
+		}
+	}
+	return
+}
+
+func (c *c21run) leaderSweepRunning() bool {
+	for _, s := range c.sweeps {
+		if s.node == "leader" && s.end == 0 {
+			return true
+		}
+	}
+	return false
+}
+
+// sweepOverlaps reports whether a sweep of that node's janitor was in progress
+// at some point between event numbers from and to.
+func (c *c21run) sweepOverlaps(node string, from, to int64) bool {
+	for _, s := range c.sweeps {
+		if s.node == node && s.begin < to && (s.end == 0 || s.end > from) {
+			return true
+		}
+	}
+	return false
+}
+
+func sleepUntil(ns int64) {
+	if d := ns - simrt.SimNow(); d > 0 {
+		simrt.Sleep(time.Duration(d))
+	}
+}
+
+// awaitLeaderSweeps parks until n sweeps of the leader's janitor were seen or
+// limit has passed (a tree whose janitor never runs must not hang the check).
+func (c *c21run) awaitLeaderSweeps(n int, limit time.Duration) bool {
+	if limit < time.Microsecond {
+		limit = time.Microsecond
+	}
+	deadline := simrt.SimNow() + int64(limit)
+	tm := simrt.NewTimer(limit)
+	defer tm.Stop()
+	simrt.Block("await-sweep", func() bool {
+		k, _, _ := c.leaderSweeps()
+		return k >= n || simrt.SimNow() >= deadline
+	})
+	k, _, _ := c.leaderSweeps()
+	return k >= n
+}
+
+func (c *c21run) verifyBystander(i int) {
+	if len(c.bystand) == 0 {
+		return
+	}
+	if c.leader.am.VerifyToken(c.bystand[i%len(c.bystand)]) == nil {
+		harnessFatal("C21: bystander token does not verify")
+	}
+}
+
+// sweepFocus runs on the root task before the concurrent phase. It returns
+// with the clock shortly before the predicted begin of the next leader sweep.
+// Other tokens are authenticated at different stages, so that whatever the
+// relation of TTL and sweep period is, one of their entries is older than the
+// TTL when the targeted sweep runs; the token under test is re-authenticated
+// less than one TTL before it.
+func (c *c21run) sweepFocus() {
+	sp := c.p.Sweep
+	ttl, _ := auth.VerifAuthConfig(c.leader.am)
+	limit := 4*ttl + time.Minute
+	c.verifyBystander(0)
+	for k := 1; k <= sp.Learn; k++ {
+		if !c.awaitLeaderSweeps(k, limit) {
+			simrt.Probe("sweep_focus_no_sweep_seen")
+			return
+		}
+		// let the sweep finish, then age another token's entry from here
+		simrt.Block("sweep-end", func() bool { return !c.leaderSweepRunning() })
+		c.verifyBystander(k)
+	}
+	_, last, prev := c.leaderSweeps()
+	period := last - prev
+	if sp.Learn == 1 {
+		period = last - c.bootNs
+	}
+	if period <= 0 {
+		return
+	}
+	next := last + period
+	warmAt := next - int64(ttl)*int64(sp.WarmPct)/100
+	sleepUntil(warmAt)
+	c.verify(c.leader, VOp{Via: "direct", Value: "old"}, "warm")
+	if c.follower != nil {
+		c.verify(c.follower, VOp{Via: "direct", Value: "old"}, "warm")
+	}
+	sleepUntil(next - int64(sp.LeadUs)*1000)
+	c.focused, c.nextNs = true, next
+	c.seenAt, _, _ = c.leaderSweeps()
+	simrt.Probe("sweep_focus_placed")
 }
 
 func (c *c21run) next() int64 { c.seq++; return c.seq }
@@ -223,6 +421,8 @@ func runC21(planAny any, cfg simrt.Config) *simkit.Outcome {
 		if p.Knobs.Cluster {
 			c.log = &simLog{resp: map[string]any{}}
 		}
+		auth.VerifObserveSweeps(c.observeSweep)
+		c.bootNs = simrt.SimNow()
 		c.leader = bootNode("leader", filepath.Join(dir, "leader", "auth.db"), p.Knobs, c.log, true)
 		if p.Knobs.Follower {
 			c.follower = bootNode("follower", filepath.Join(dir, "follower", "auth.db"), p.Knobs, c.log, false)
@@ -268,11 +468,18 @@ func runC21(planAny any, cfg simrt.Config) *simkit.Outcome {
 				}
 			}
 		}
+		if p.Sweep != nil {
+			c.sweepFocus()
+		}
 		// concurrent phase
 		var tasks []*simrt.Task
 		if p.Mut != "none" {
 			tasks = append(tasks, simrt.Go("mutator", func() {
-				if p.MutDelayUs > 0 {
+				if c.focused && p.Sweep.MutOnSweep {
+					// start when the targeted sweep is seen to begin; the observation seam can miss a sweep
+					// (see VerifObserveSweeps) and the prediction can be off, so do not wait long past it
+					c.awaitLeaderSweeps(c.seenAt+1, time.Duration(c.nextNs-simrt.SimNow())+5*time.Millisecond)
+				} else if p.MutDelayUs > 0 {
 					simrt.Sleep(time.Duration(p.MutDelayUs) * time.Microsecond)
 				}
 				c.mutate()
@@ -348,6 +555,7 @@ func runC21(planAny any, cfg simrt.Config) *simkit.Outcome {
 		}
 		out.Stats["probe.materialise_errors"] += c.leader.applyErrs
 	})
+	auth.VerifObserveSweeps(nil)
 	out.Absorb(res)
 	if len(res.Panics) > 0 {
 		out.Violate("C21.panic", "%s", res.Panics[0])
@@ -411,8 +619,14 @@ func judgeC21(c *c21run, out *simkit.Outcome) {
 				continue // the mutation reported failure: no promise
 			}
 			out.Stats["probe.verify_after_mutation"]++
+			// classification only: was that node's cache janitor sweeping while the mutation was applied there
+			circ, from := "", c.mutInv
+			if c.sweepOverlaps(v.node, from, ref) {
+				circ = ".cache-sweep-concurrent"
+				out.Stats["probe.verify_after_mutation_with_sweep"]++
+			}
 			if v.ok {
-				out.Violate("C21.old-value-accepted-after-"+p.Mut+"-returned."+mode+where,
+				out.Violate("C21.old-value-accepted-after-"+p.Mut+"-returned."+mode+where+circ,
 					"%s of token %d returned at event %d; verification of the old value invoked at event %d (via %s on %s, phase %s) authenticated",
 					p.Mut, c.tokenID, ref, v.inv, v.via, v.node, v.phase)
 			}
@@ -421,6 +635,10 @@ func judgeC21(c *c21run, out *simkit.Outcome) {
 	out.Stats["probe.verify_overlapping_mutation"] += int64(overlap)
 	if c.mutDone && c.mutErr != nil {
 		out.Stats["probe.mutation_error"]++
+	}
+	out.Stats["probe.janitor_sweeps_seen"] += int64(len(c.sweeps))
+	if c.mutDone && c.sweepOverlaps("leader", c.mutInv, c.mutRet) {
+		out.Stats["probe.mutation_overlapping_sweep"]++
 	}
 	out.Nontrivial = after > 0 && (overlap > 0 || out.Preempts > 0 || !c.expires.IsZero())
 	if !c.expires.IsZero() && out.Stats["probe.verify_after_expiry"] > 0 {
@@ -520,6 +738,25 @@ func shrinkC21(planAny any) []any {
 		q.MutDelayUs = 0
 		out = append(out, q)
 	}
+	if p.Sweep != nil {
+		q := cp()
+		q.Sweep = nil
+		out = append(out, q)
+		if p.Sweep.Learn > 1 {
+			q := cp()
+			sp := *p.Sweep
+			sp.Learn = 1
+			q.Sweep = &sp
+			out = append(out, q)
+		}
+		if p.Sweep.LeadUs > 0 {
+			q := cp()
+			sp := *p.Sweep
+			sp.LeadUs = 0
+			q.Sweep = &sp
+			out = append(out, q)
+		}
+	}
 	return out
 }
 
@@ -537,5 +774,6 @@ func descC21(planAny any) any {
 		nops += len(v.Ops)
 	}
 	return map[string]any{"mode": mode, "mutation": p.Mut, "expiry_ms": p.ExpiryMs, "verifier_tasks": len(p.Verifiers), "concurrent_verifications": nops,
-		"warm": len(p.Warm), "post": len(p.Post), "auth_cache_ttl_ms": p.Knobs.AuthTTLMs, "auth_cache_max": p.Knobs.AuthCacheMax, "yield_on_db": p.Knobs.YieldOnDB}
+		"warm": len(p.Warm), "post": len(p.Post), "auth_cache_ttl_ms": p.Knobs.AuthTTLMs, "auth_cache_max": p.Knobs.AuthCacheMax, "yield_on_db": p.Knobs.YieldOnDB,
+		"sweep_focused": p.Sweep != nil}
 }
